@@ -541,6 +541,9 @@ def run(ck):
     # (shared with C11/R11.6)
     from . import c11
     n5 = c11.fragment_loop(ck, agg, rule="R15.8")
+    # ... and under the header it was received with: every forwarded / queued frame is re-packed from the decoded header, so pack() must
+    # put back every bit unpack() took (field order, widths, masks: R11.1-R11.5, shared with C11)
+    c11.header_rules(ck, agg)
     # the level used to index the pipe-address tables when relaying is what _begin() derived from the current address - afresh on every call,
     # 0..4 (R04.1; a level that accumulates over re-addressing indexes past the 6-byte suffix table inside update())
     from . import c04
